@@ -1,1 +1,56 @@
-// harness bodies compiled inside quinn-proto/src/connection/timer.rs (feature __verif-hooks)
+// Harness bodies for quinn-proto/src/connection/timer.rs.
+
+/// C08.b (and the TimerTable facts C20 relies on): with three arbitrary timers armed at arbitrary
+/// instants and one arbitrary timer stopped, `next_timeout` is the minimum armed instant (None iff
+/// nothing is armed), `is_expired(t, now)` iff armed at or before `now`, and `stop` disarms only
+/// its own timer.
+pub fn table(i0: u8, s0: u32, i1: u8, s1: u32, i2: u8, s2: u32, n2: u32, stop: u8, q: u8, now_s: u32, now_n: u32) -> u32 {
+    let (n0, n1) = (0, 999_999_999);
+    if i0 > 8 || i1 > 8 || i2 > 8 || stop > 8 || q > 8 {
+        return 0;
+    }
+    let (Some(t0), Some(t1), Some(t2), Some(now)) = (
+        crate::verif::mk_instant(s0, n0), crate::verif::mk_instant(s1, n1), crate::verif::mk_instant(s2, n2), crate::verif::mk_instant(now_s, now_n),
+    ) else { return 0 };
+    let mut tt = TimerTable::default();
+    assert!(tt.next_timeout().is_none());
+    tt.set(Timer::VALUES[i0 as usize], t0);
+    tt.set(Timer::VALUES[i1 as usize], t1);
+    tt.set(Timer::VALUES[i2 as usize], t2);
+    tt.stop(Timer::VALUES[stop as usize]);
+    // reference model: last write per slot wins
+    let mut model: [Option<Instant>; 9] = [None; 9];
+    model[i0 as usize] = Some(t0);
+    model[i1 as usize] = Some(t1);
+    model[i2 as usize] = Some(t2);
+    model[stop as usize] = None;
+    let mut min: Option<Instant> = None;
+    let mut k = 0;
+    while k < 9 {
+        assert!(tt.get(Timer::VALUES[k]) == model[k]);
+        if let Some(t) = model[k] {
+            min = Some(match min { Some(m) if m <= t => m, _ => t });
+        }
+        k += 1;
+    }
+    assert!(tt.next_timeout() == min);
+    let qt = Timer::VALUES[q as usize];
+    assert!(tt.is_expired(qt, now) == matches!(model[q as usize], Some(t) if t <= now));
+    // the enum discriminants index the table one-to-one
+    assert!(Timer::VALUES[q as usize] as usize == q as usize);
+    // servicing: stopping an expired timer makes the next timeout move strictly past `now`
+    // once all expired timers are stopped
+    let mut k = 0;
+    while k < 9 {
+        if tt.is_expired(Timer::VALUES[k], now) {
+            tt.stop(Timer::VALUES[k]);
+        }
+        k += 1;
+    }
+    assert!(!matches!(tt.next_timeout(), Some(t) if t <= now));
+    let mut f = 1;
+    if min.is_none() { f |= 2 }
+    if i0 == i1 || i1 == i2 { f |= 4 }
+    if matches!(min, Some(t) if t <= now) { f |= 8 }
+    f
+}
